@@ -833,7 +833,9 @@ impl BackingStore {
         });
         if length == 0 {
             // This will cause `mmap` to fail, so handle it explicitly.
-            return (ptr::null_mut(), length);
+            // (Not with a null pointer though: slices must not be made from one,
+            // not even empty ones.)
+            return (ptr::NonNull::dangling().as_ptr(), length);
         }
         let address = libc::mmap(
             ptr::null_mut(),
@@ -870,7 +872,8 @@ unsafe impl Sync for OsIpcSharedMemory {}
 impl Drop for OsIpcSharedMemory {
     fn drop(&mut self) {
         unsafe {
-            if !self.ptr.is_null() {
+            // (Nothing is mapped for an empty region.)
+            if self.length != 0 {
                 let result = libc::munmap(self.ptr as *mut c_void, self.length);
                 assert!(thread::panicking() || result == 0);
             }
